@@ -107,6 +107,24 @@ func registerExternals(w *World) {
 		fr.in.panicOK = args[0].(bool)
 		return nil, true
 	}
+	x[zzPkg+".Havoc"] = func(fr *frame, args []value) (value, bool) {
+		name := args[0].(string)
+		p := args[1].(iface)
+		ptr, ok := p.v.(*value)
+		if !ok || ptr == nil {
+			panic(unsupported{"Havoc needs a non-nil pointer"})
+		}
+		*ptr = fr.in.havoc(mustDeref(p.t), name, 0)
+		return nil, true
+	}
+	x[zzPkg+".SameState"] = func(fr *frame, args []value) (value, bool) {
+		a, b := args[0].(iface), args[1].(iface)
+		return fr.in.mk(types.Bool, fr.in.sameState(a.v, b.v, 0)), true
+	}
+	x[zzPkg+".AtomConcretize"] = func(fr *frame, args []value) (value, bool) {
+		fr.in.atomConcretize = args[0].(bool)
+		return nil, true
+	}
 	x[zzPkg+".Native"] = func(fr *frame, args []value) (value, bool) { return false, true }
 	x[zzPkg+".IsSymbolic"] = func(fr *frame, args []value) (value, bool) {
 		a := args[0].(iface)
